@@ -18,6 +18,7 @@ PID = "C29"
 HARNESS = ["vf_common.go", "vf_vfs.go", "vf_linearize.go"]
 DEV_RD = "Dev_ReaddirNotASnapshot"
 DEV_PUT = "Dev_CachePutAfterInvalidate"
+DEV_RDATTR = "Dev_ReaddirplusAttrsNotASnapshot"
 
 MC_CFG = """SPECIFICATION Spec
 CONSTANTS
@@ -423,10 +424,13 @@ def run(ctx):
     ctx.cov["rule"] = ("seeded histories of 2-4 client goroutines x 2-4 requests (CREATE/MKDIR/SYMLINK/REMOVE/RMDIR/RENAME/WRITE/READ/SETATTR/"
                        "LOOKUP/GETATTR/READDIR/READDIRPLUS) through HandleCall over vfs under -race, seeded yields / spins / sleeps before and "
                        "after every backend operation, 8 cache configurations (TTL 1 ns / default, negative cache, directory cache); every 5th "
-                       "history lets all clients work on the same names and handles (races, final-state clause only); 5 directed schedules with "
-                       "blocking gates; a history is non-trivial when requests of different clients overlap in real time and at least two "
+                       "history lets all clients work on the same names and handles (races, final-state clause only); every 10th is an attribute storm "
+                       "(clients GETATTR their own files of pairwise different sizes at the same moment, no injected delays; replies incl. size and "
+                       "fileid are checked); every 20th consists of re-export rounds (Unexport, then all clients MNT + READDIRPLUS of 40 entries at "
+                       "once, aligned by a barrier right before the handle allocations; the handle table is projected after every round); directed "
+                       "schedules with blocking gates; a history is non-trivial when requests of different clients overlap in real time and at least two "
                        "requests changed the tree")
-    ctx.cov["spec_actions_covered_by_impl"] = ["Step (all 13 procedures)", "Observe/Accepting", "FinalFails", "EventBad", DEV_RD, DEV_PUT]
+    ctx.cov["spec_actions_covered_by_impl"] = ["Step (all 13 procedures)", "Observe/Accepting", "FinalFails", "EventBad", "FidBad", DEV_RD, DEV_PUT, DEV_RDATTR]
     ctx.assumptions += [
         "the vfs backend is thread-safe and executes every operation atomically under one mutex (its FileInfo values are immutable snapshots)",
         "invocation / response order is taken from one atomic counter incremented immediately before and after HandleCall",
